@@ -4,4 +4,16 @@ go 1.19
 
 require github.com/my-cloud/ruthenium v0.0.0
 
+require (
+	github.com/btcsuite/btcd v0.24.0 // indirect
+	github.com/btcsuite/btcd/btcec/v2 v2.2.0 // indirect
+	github.com/btcsuite/btcd/btcutil v1.1.5 // indirect
+	github.com/btcsuite/btcd/chaincfg/chainhash v1.1.0 // indirect
+	github.com/decred/dcrd/dcrec/secp256k1/v4 v4.0.1 // indirect
+	github.com/ethereum/go-ethereum v1.13.15 // indirect
+	github.com/holiman/uint256 v1.2.4 // indirect
+	github.com/tyler-smith/go-bip39 v1.1.0 // indirect
+	golang.org/x/crypto v0.21.0 // indirect
+)
+
 replace github.com/my-cloud/ruthenium => /repo
